@@ -164,4 +164,25 @@ PROPS = {
             rapid("c05", "TestPropStateMachine", quick=(500, 6), thorough=(8000, 14), shrinktime="20s"),
         ],
     },
+    "C04": {
+        "level": "exploration",
+        "rule": "1..6 grammatical commands (LOGIN, SELECT, CREATE, RENAME, STATUS, LIST, SEARCH with strings, APPEND incl. trailing garbage, "
+                "FETCH header lists, COPY/MOVE with backend-reported empty/non-empty COPYUID data, AUTHENTICATE exchange, IDLE/DONE, NOOP) "
+                "whose string arguments are independently rendered as atom / quoted / {n} / {n+} with sizes 0..5000 around 4096 and "
+                "announced sizes up to 2^63-1 (APPEND limit+1, 2^31), payloads made of CRLF, command-like canary lines (tags zz*), "
+                "unbalanced quotes/braces; sent by a client that is conforming about synchronisation (waits for '+' or the tagged "
+                "refusal) either command by command or as one pipelined write; server caps {rev1, rev1+LITERAL+, rev2} x state "
+                "{not authenticated, authenticated, selected}. Oracle on the server output framed by kit/tok: only whole well-formed "
+                "lines; tagged completions are the sent tags, in order, each once (connection close is allowed); '+' only while a "
+                "sync literal / AUTHENTICATE / IDLE is pending and never for an over-limit literal; no canary tag answered; no OK for "
+                "a refused or malformed command; every backend call matches a sent command with byte-identical arguments and no "
+                "argument contains payload text that was not accepted as that argument; a sentinel NOOP proves framing is intact. "
+                "Non-trivial: a literal whose payload contains CRLF or a canary, or a refused literal; distinct by hash of (config, commands).",
+        "assumptions": ["a timeout (5 s against microsecond latencies, in-memory pipe) is read as 'the server is waiting for more input'",
+                        "closing the connection is always permitted by the statement and is counted, not judged"],
+        "units": [
+            plain("c04", "TestReplayFindings"),
+            rapid("c04", "TestPropFraming", quick=(1500, 6), thorough=(25000, 14), shrinktime="20s"),
+        ],
+    },
 }
